@@ -867,7 +867,11 @@ func (c *syntaxLoader) convertPart(p ast.RhsPart, nonterm *syntax.Nonterm, under
 				if !c.aliasOptSuffix && len(k) > len(c.optSuffix) && strings.HasSuffix(k, c.optSuffix) {
 					k = strings.TrimSuffix(k, c.optSuffix)
 				}
-				args.Names[k] = v
+				// Note: "x" and "xopt" can end up under the same name.
+				args.Names[k] = append(args.Names[k], v...)
+			}
+			for _, positions := range args.Names {
+				sort.Ints(positions)
 			}
 		}
 		if len(rhs.argRefs) > 0 {
